@@ -30,7 +30,7 @@ func docHasNonASCII(doc string) bool { return !isASCII(doc) }
 
 func init() {
 	register("C06", func(c *engine.Ctx) {
-		c.Rule = "one string field per program: {minLength,maxLength,pattern} presence x position (required/optional/nullable/definition/nested) x strings of length limit-1, limit, limit+1 in ASCII and in 2-, 3-, 4-byte characters x matching / non-matching text for each pattern form; plus absent and null; plus limits under composition: a definition with ONE limit on an array property used as an earlier allOf / anyOf branch (by $ref or inline) while a later branch puts the OTHER limit on the same property — decoding 0..5 elements into the definition's own type (or the anyOf branch type) must apply its own limit only, and the composed position what the reference says. The reference verdict is judged on ASCII documents (scope F06; byte counting is known finding K1), model = implementation on all. Distinct = distinct (labels, reference verdict, real verdict, document shape)."
+		c.Rule = "one string field per program: {minLength,maxLength,pattern} presence x position (required/optional/nullable/definition/nested/optional-with-a-valid-default) x strings of length limit-1, limit, limit+1 in ASCII and in 2-, 3-, 4-byte characters x matching / non-matching text for each pattern form; plus absent and null. The reference verdict is judged on ASCII documents (scope F06; byte counting is known finding K1), model = implementation on all. Distinct = distinct (labels, reference verdict, real verdict, document shape)."
 		c.Proofs([]string{"GJS.Props.C06"}, []string{
 			"GJS.Props.C06.ascii_bytes_eq_length", "GJS.Props.C06.string_check_exact_ascii", "GJS.Props.C06.string_check_exact_pattern_only",
 			"GJS.Props.C06.absent_or_null_unchecked", "GJS.Props.C06.present_checked", "GJS.Props.C06.KF_bytes_counterexample",
@@ -64,6 +64,21 @@ func init() {
 						if pat != "" {
 							prop["pattern"] = pat
 						}
+						if pos == PosDefault {
+							// an optional string with a default that satisfies its own constraints: absent must be accepted
+							// (and become the default), never checked as the empty string
+							def := ""
+							for _, cand := range []string{"abc", "a", "abcd", "123", "z", "az", "0", "abz", "b"} {
+								if sgen.LocalValid(prop, cand) {
+									def = cand
+									break
+								}
+							}
+							if def == "" {
+								continue
+							}
+							prop["default"] = def
+						}
 						schema, mk := fieldProgram(pos, prop)
 						var docs []any
 						seen := map[string]bool{}
@@ -81,7 +96,7 @@ func init() {
 						for _, s := range patDocs[pat] {
 							add(s)
 						}
-						if pos == PosOptional || pos == PosNullable {
+						if pos == PosOptional || pos == PosNullable || pos == PosDefault {
 							docs = append(docs, mk(nil, true))
 						}
 						if pos == PosNullable {
@@ -107,7 +122,7 @@ func init() {
 	})
 
 	register("C07", func(c *engine.Ctx) {
-		c.Rule = "array-typed field, nesting depth 1..3, minItems/maxItems at each level independently in {none,min,max,both}, lengths min-1,min,max,max+1 at each level, positions required/optional/nullable; plus absent and null. The reference verdict is judged where limits sit on depth-1 arrays or are the same at every level (scope F07; the outer-limits-everywhere behaviour is known finding K2); model = implementation on all. Distinct = distinct (labels, verdicts, document shape)."
+		c.Rule = "array-typed field, nesting depth 1..3, minItems/maxItems at each level independently in {none,min,max,both}, lengths min-1,min,max,max+1 at each level, positions required/optional/nullable/optional-with-a-valid-default; plus absent and null; plus limits under composition: a definition with ONE limit on an array property used as an earlier allOf / anyOf branch (by $ref or inline) while a later branch puts the OTHER limit on the same property — decoding 0..5 elements into the definition's own type (or the anyOf branch type) must apply its own limit only, and the composed position what the reference says. The reference verdict is judged where limits sit on depth-1 arrays or are the same at every level (scope F07; the outer-limits-everywhere behaviour is known finding K2); model = implementation on all. Distinct = distinct (labels, verdicts, document shape)."
 		c.Proofs([]string{"GJS.Props.C07"}, []string{
 			"GJS.Props.C07.depth1_exact", "GJS.Props.C07.absent_or_null_unchecked", "GJS.Props.C07.nested_unfold",
 			"GJS.Props.C07.nested2_uniform", "GJS.Props.C07.KF_nested_limits_counterexample",
@@ -122,7 +137,7 @@ func init() {
 			}
 			return out
 		}
-		for _, pos := range []Position{PosRequired, PosOptional, PosNullable} {
+		for _, pos := range []Position{PosRequired, PosOptional, PosNullable, PosDefault} {
 			for depth := 1; depth <= 3; depth++ {
 				combos := 1
 				for i := 0; i < depth; i++ {
@@ -156,7 +171,6 @@ func init() {
 						}
 						prop = a
 					}
-					schema, mk := fieldProgram(pos, prop)
 					// documents: at each level one length off, the others at a valid length for THEIR OWN limits
 					okLen := func(l lim) int {
 						if l.mn != 0 {
@@ -179,6 +193,11 @@ func init() {
 					for i := range base {
 						base[i] = okLen(ls[i])
 					}
+					if pos == PosDefault {
+						// an optional array with a default that satisfies its own limits: a present array is still checked
+						prop["default"] = build(base)
+					}
+					schema, mk := fieldProgram(pos, prop)
 					docs = append(docs, mk(build(base), false))
 					for lv := 0; lv < depth; lv++ {
 						for _, n := range []int{ls[lv].mn - 1, ls[lv].mn, ls[lv].mx, ls[lv].mx + 1, 0, 4} {
@@ -308,7 +327,7 @@ func init() {
 	})
 
 	register("C08", func(c *engine.Ctx) {
-		c.Rule = "enum lists of every shape (strings, untyped ints, numbers, booleans, mixed, with null; typed string/integer/number/boolean; members of different JSON types that print alike — true/\"true\", 1/\"1\", null/\"<nil>\", 1.5/\"1.5\" — and repeated members) used inline (required/optional), as array items, via $ref (typed definitions) and with a default, x every member and non-members of every JSON type. Judged: verdict = reference; accepted values marshal back unchanged; string enums expose one constant per value with that value and distinct names. Distinct = distinct (shape, position, verdicts, document shape)."
+		c.Rule = "enum lists of every shape (strings, untyped ints, numbers, booleans, mixed, with null; typed string/integer/number/boolean; members of different JSON types that print alike — true/\"true\", 1/\"1\", null/\"<nil>\", 1.5/\"1.5\" — and repeated members; typed enums that also state bounds or lengths, incl. bounds beyond 32 bits) used inline (required/optional), as array items, via $ref (typed definitions) and with a default, x every member and non-members of every JSON type. Judged: verdict = reference; accepted values marshal back unchanged; string enums expose one constant per value with that value and distinct names. Distinct = distinct (shape, position, verdicts, document shape)."
 		c.Proofs([]string{"GJS.Props.C08"}, []string{
 			"GJS.Props.C08.string_enum_membership", "GJS.Props.C08.number_enum_membership", "GJS.Props.C08.bool_enum_membership",
 			"GJS.Props.C08.mixed_enum_membership_json", "GJS.Props.C08.wrapped_marshal_roundtrip", "GJS.Props.C08.plain_marshal_roundtrip",
@@ -335,9 +354,16 @@ func init() {
 			"text-twins-rev":   {"enum": []any{"true", "1", true, 1}},
 			"repeated-strings": {"type": "string", "enum": []any{"x", "y", "x"}},
 			"repeated-ints":    {"enum": []any{1, 2, 1}},
+			// typed integer enums that also state bounds (the carrier type is chosen from type AND bounds)
+			"typed-integer-bounded":    {"type": "integer", "enum": []any{1, 2, 3}, "minimum": 0, "maximum": 10},
+			"typed-integer-big-max":    {"type": "integer", "enum": []any{1073741824, 4294967296, 8589934592}, "maximum": 8589934592},
+			"typed-integer-big-min":    {"type": "integer", "enum": []any{-8589934592, 0, 5}, "minimum": -8589934592},
+			"typed-integer-big-xmax":   {"type": "integer", "enum": []any{3, 4294967296}, "exclusiveMaximum": 4294967297},
+			"typed-number-bounded":     {"type": "number", "enum": []any{1.5, 2}, "minimum": 1, "maximum": 2},
+			"typed-string-constrained": {"type": "string", "enum": []any{"red", "green"}, "minLength": 3},
 		}
 		probes := []any{"red", "green", "x y", "blue", "a", "only", "", "RED", 1, 2, 3, 10, -1, 0, 1.5, 2.5, 3.25, true, false, nil, []any{}, M{}, []any{"red"}, "b", "l", "m",
-			"true", "false", "1", "2", "auto", "<nil>", "null", "1.5", "x", "y"}
+			"true", "false", "1", "2", "auto", "<nil>", "null", "1.5", "x", "y", 1073741824, 4294967296, 8589934592, -8589934592, 5, 4}
 		var pcs []*core.PCase
 		for _, name := range core.SortedKeys(shapes) {
 			sh := shapes[name]
